@@ -146,6 +146,11 @@ def scratch_dir():
     base = "/dev/shm" if os.path.isdir("/dev/shm") and os.access("/dev/shm", os.W_OK) else tempfile.gettempdir()
     return tempfile.mkdtemp(prefix="econf-verif-", dir=base)
 
+def root_len():
+    """length of the real path of a scratch root as scratch_dir() makes them (mkdtemp: 8 random characters)"""
+    base = "/dev/shm" if os.path.isdir("/dev/shm") and os.access("/dev/shm", os.W_OK) else tempfile.gettempdir()
+    return len(os.path.realpath(base)) + 1 + len("econf-verif-") + 8
+
 def split_outputs(text):
     """output of a driver -> list of per-scenario lists of lines"""
     res, cur = [], None
@@ -246,12 +251,17 @@ def run_impl_chunk(exe, scenarios, timeout_per=20.0, env_extra=None):
         i += done + 1
     return results
 
+def nchunks(total):
+    """number of driver processes a run of `total` scenarios is spread over (scenario k runs in process k % n,
+    after the scenarios k-n, k-2n, ... of the same process)"""
+    return max(1, min(NPROC, total // 20 + 1))
+
 def run_impl(scenarios, flavour="asan", timeout_per=20.0, env_extra=None):
     """returns (list of (lines, verdict-or-None) per scenario, leak_reports)"""
     exe, err = impl_driver(flavour)
     if exe is None:
         raise BuildError(err)
-    n = max(1, min(NPROC, len(scenarios) // 20 + 1))
+    n = nchunks(len(scenarios))
     chunks = [scenarios[i::n] for i in range(n)]
     import concurrent.futures
     with concurrent.futures.ThreadPoolExecutor(max_workers=n) as ex:
